@@ -2853,6 +2853,14 @@ class AggregateBase(UnitsManaged, Saveable, OpenSystem):
                             relaxation_hamiltonian=H,
                             start=start)
 
+                # the populations are defined in the exciton basis; the
+                # density matrix has to be created there, so that it is
+                # transformed correctly when the context is left
+                with eigenbasis_of(Ham):
+                    rho = DensityMatrix(data=rho0)
+                self.rho0 = rho.data
+                return rho
+
             else:
                 raise Exception("Unknown relaxation_theory_limit")
 
